@@ -81,12 +81,14 @@ class Domain:
         self.deltas = []  # z3 consts
         self.side = []  # z3 constraints that define fresh symbols (quotients, ...)
         self.nonzero = []  # divisors (terms) assumed non-zero by the quotient encoding
+        self.nonzero_side_index = []  # nonzero[k] is the divisor of the quotient defined by side[nonzero_side_index[k]]
 
     def reset(self):
         self.counter = 0
         self.deltas = []
         self.side = []
         self.nonzero = []
+        self.nonzero_side_index = []
 
     def fresh(self, prefix):
         self.counter += 1
@@ -349,6 +351,9 @@ class RealDomain(Domain):
         q = z3.Real(self.fresh("q"))
         self.side.append(q * b.t == a.t)
         self.nonzero.append(b.t)
+        # side[k] defines the k-th quotient and would make its own divisor non-zero by definition (for a non-zero numerator);
+        # "no divisor can vanish" must therefore be posed for divisor k under side[:k] only -- see nonzero_obligation_assumptions
+        self.nonzero_side_index.append(len(self.side) - 1)
         return self._round(q)
 
     def neg(self, a):
